@@ -233,6 +233,11 @@ type progOpts struct {
 	// GzipObjPct: % of uploads whose payload is itself a gzip stream; three in four of those sent by multipart / resumable
 	// declare contentEncoding gzip in their metadata (the others, and media uploads, can get it by a later PATCH).
 	GzipObjPct int
+	// MidPct: % of resumable uploads that are sent in at least two chunk requests with 1-2 OTHER requests on the same
+	// object (overwrite by another upload, patch, delete, re-creation; conditioned or not) executed between two of the
+	// session's chunks. The upload's own conditions were drawn against the object as it was when the session was opened;
+	// the oracle judges them against the object as it is when the upload is committed.
+	MidPct int
 }
 
 func (e *exec) liveIn(b string) []string { return e.m.Names(b) }
@@ -384,8 +389,14 @@ func genUpload(r *common.Rand, o *progOpts, b, n string) *uploadSpec {
 
 // runStep draws one step from the weighted kinds, executes it and returns what it refuted ("" if nothing).
 func runStep(r *common.Rand, e *exec, o *progOpts) string {
+	if len(e.queue) > 0 {
+		// the next request of a scenario that an earlier step started
+		f := e.queue[0]
+		e.queue = e.queue[1:]
+		return f(r)
+	}
 	total := 0
-	kinds := []string{"upload", "overwrite", "delete", "delete_absent", "patch", "patch_absent", "compose", "copy", "burst", "patch_burst", "patch_full", "patch_bad", "bucket_cycle", "noop", "reads", "decoy"}
+	kinds := []string{"upload", "overwrite", "delete", "delete_absent", "patch", "patch_absent", "compose", "copy", "burst", "patch_burst", "patch_full", "patch_bad", "bucket_cycle", "noop", "reads", "decoy", "dirs", "big_same"}
 	for _, k := range kinds {
 		total += o.W[k]
 	}
@@ -456,7 +467,14 @@ func runStep(r *common.Rand, e *exec, o *progOpts) string {
 		}
 		u := genUpload(r, o, b, n)
 		u.Conds = genConds(r, e, o, b, n)
+		if u.Proto == "resumable" && r.Chance(o.MidPct, 100) {
+			attachMid(r, e, o, u)
+		}
 		return e.upload(u, r)
+	case "dirs":
+		return dirsStep(r, e, o, b)
+	case "big_same":
+		return bigSameStep(r, e, o, b)
 	case "burst":
 		n, ok := pickTarget(r, e, o, b)
 		if !ok {
@@ -800,4 +818,251 @@ func decoyStep(r *common.Rand, e *exec, o *progOpts, b string) string {
 	}
 	spec.Srcs[r.Intn(len(spec.Srcs))].Name = c.name
 	return e.compose(spec)
+}
+
+// attachMid makes a resumable upload a session of at least two data chunks with other requests on the same object
+// between two of its chunks: the object is overwritten by another upload, patched, deleted or created while the session
+// is open and partly sent. Every one of those requests is checked like any other and followed by a whole-store dump (a
+// half-sent session must not show anywhere).
+func attachMid(r *common.Rand, e *exec, o *progOpts, u *uploadSpec) {
+	if len(u.Body) < 2 {
+		if u.ContentEncoding != "" {
+			return
+		}
+		u.Body = r.Bytes(r.Range(2, 3000))
+	}
+	if half := len(u.Body) / 2; u.ChunkMax > half {
+		u.ChunkMax = half
+	}
+	if floor := len(u.Body)/25 + 1; u.ChunkMax < floor {
+		u.ChunkMax = floor // (at most ~25 chunk requests; never more than half of the body)
+	}
+	u.MidAfter = 1
+	if r.Chance(1, 4) {
+		u.MidAfter = 2
+	}
+	b, n := u.Bucket, u.Name
+	u.Mid = func() string {
+		for i, k := 0, r.Range(1, 2); i < k; i++ {
+			cur := e.m.Get(b, n)
+			var c model.Conds
+			if r.Chance(1, 4) {
+				c = genConds(r, e, o, b, n)
+			}
+			msg := ""
+			switch x := r.Intn(10); {
+			case cur == nil || x < 4:
+				// created / overwritten by another client's upload
+				w := genUpload(r, o, b, n)
+				w.Proto = common.Pick(r, []string{"media", "multipart"})
+				if w.Proto == "media" {
+					w.MD5, w.UserMeta, w.Extra, w.ContentEncoding = "", nil, nil, "" // a media upload sends no metadata
+				}
+				w.Conds = c
+				msg = e.upload(w, r)
+				e.stats["mid_session_uploads"]++
+			case x < 7:
+				msg = e.patch(b, n, genPatchFields(r), c)
+				e.stats["mid_session_patches"]++
+			default:
+				msg = e.del(b, n, c)
+				e.stats["mid_session_deletes"]++
+			}
+			if msg == "" {
+				msg = e.verify()
+			}
+			if msg != "" {
+				return msg
+			}
+		}
+		return ""
+	}
+}
+
+// dirsStep starts the "emptied directories" scenario. Object names are flat strings; a store that keeps "a/b/c" as a
+// file below directories must not let those directories outlive the object: once the last object below "a" is gone,
+// "a" and "a/b" are ordinary absent names again - they can be uploaded, be the destination of a copy or a compose, and
+// a DELETE of them is a 404 like that of any other absent name. The scenario takes a name at least two levels deep,
+// stores it if need be, deletes it and then addresses one request to each of its ancestors' names (outermost first,
+// two times in three); every request is a step of its own, followed by the caller's dump and comparisons.
+func dirsStep(r *common.Rand, e *exec, o *progOpts, b string) string {
+	live := e.liveIn(b)
+	var deep []string
+	for _, n := range o.Names {
+		if strings.Count(n, "/") >= 2 && !strings.HasSuffix(n, "/") && !strings.Contains(n, "//") && (e.m.Get(b, n) != nil || !o.FileRules || representable(n, live)) {
+			deep = append(deep, n)
+		}
+	}
+	if len(deep) == 0 {
+		e.mustSame, e.readOnly = true, true
+		return ""
+	}
+	n := common.Pick(r, deep)
+	var ancestors []string
+	for i := 0; i < len(n); i++ {
+		if n[i] == '/' && i > 0 {
+			ancestors = append(ancestors, n[:i])
+		}
+	}
+	if r.Chance(1, 3) {
+		for i, j := 0, len(ancestors)-1; i < j; i, j = i+1, j-1 {
+			ancestors[i], ancestors[j] = ancestors[j], ancestors[i]
+		}
+	}
+	// every later dump reads the ancestors' names as well
+	added := false
+	for _, a := range ancestors {
+		if !contains(e.universe[b], a) {
+			e.universe[b] = append(e.universe[b], a)
+			added = true
+		}
+	}
+	if added {
+		if msg := e.verify(); msg != "" {
+			return fmt.Sprintf("dump that first reads the names %q: %s", ancestors, msg)
+		}
+	}
+	e.stats["dir_scenarios"]++
+	del := func(r *common.Rand) string {
+		if e.m.Get(b, n) == nil {
+			e.mustSame, e.readOnly = true, true
+			return ""
+		}
+		e.stats["dir_scenarios_deep_object_deleted"]++
+		return e.del(b, n, model.Conds{})
+	}
+	e.queue = append(e.queue, del)
+	for _, a := range ancestors {
+		a := a
+		e.queue = append(e.queue, func(r *common.Rand) string {
+			now := e.liveIn(b)
+			if e.m.Get(b, a) == nil && e.folderOf(b, a) {
+				// something is (still) stored below the name
+				e.stats["dir_scenarios_ancestor_still_a_prefix"]++
+				return e.delFolder(b, a, model.Conds{})
+			}
+			if e.m.Get(b, a) == nil && o.FileRules && !representable(a, now) {
+				return e.reads(r, b, a)
+			}
+			if e.m.Get(b, a) == nil {
+				e.stats["dir_scenarios_requests_on_emptied_ancestor_names"]++
+			}
+			switch x := r.Intn(10); {
+			case x < 3:
+				u := genUpload(r, o, b, a)
+				return e.upload(u, r)
+			case x < 5 && len(now) > 0:
+				return e.copyObj(b, common.Pick(r, now), b, a)
+			case x < 7 && len(now) > 0:
+				spec := &composeSpec{Bucket: b, Dst: a, CT: common.Pick(r, contentTypes)}
+				for i, k := 0, r.Range(1, 3); i < k; i++ {
+					spec.Srcs = append(spec.Srcs, composeSrc{Name: common.Pick(r, now)})
+				}
+				return e.compose(spec)
+			case x < 9:
+				return e.del(b, a, model.Conds{})
+			}
+			return e.reads(r, b, a)
+		})
+	}
+	if e.m.Get(b, n) == nil {
+		u := genUpload(r, o, b, n)
+		u.MD5 = ""
+		return e.upload(u, r)
+	}
+	f := e.queue[0]
+	e.queue = e.queue[1:]
+	return f(r)
+}
+
+// bigSizes are the sizes of the large payloads of the "same bytes again" scenario.
+var bigSizes = []int{1 << 20, 1<<20 + 17}
+
+// bigSameStep starts the "same bytes again" scenario (at most once per program): an object of 1 MiB (+17) is written,
+// then written AGAIN with byte-identical content through the other upload protocols, copied onto itself, overwritten by
+// a copy of a twin that holds the same bytes, and patched and uploaded once more. Each of these is a successful content
+// write: new generation, metageneration 1, content as sent - a store must not treat "nothing changed" as "nothing to
+// do". Finally the large objects are deleted, so that the rest of the program stays cheap. One request per step.
+func bigSameStep(r *common.Rand, e *exec, o *progOpts, b string) string {
+	if e.stats["big_same_scenarios"]+e.bigDone > 0 {
+		e.mustSame, e.readOnly = true, true
+		return ""
+	}
+	n, ok := pickTarget(r, e, o, b)
+	if !ok {
+		e.mustSame, e.readOnly = true, true
+		return ""
+	}
+	e.bigDone++
+	e.stats["big_same_scenarios"]++
+	pay := r.Bytes(common.Pick(r, bigSizes))
+	protos := []string{"media", "multipart", "resumable"}
+	common.Shuffle(r, protos)
+	up := func(name, proto string) func(r *common.Rand) string {
+		return func(r *common.Rand) string {
+			if e.m.Get(b, name) == nil && o.FileRules && !representable(name, e.liveIn(b)) {
+				e.mustSame, e.readOnly = true, true
+				return ""
+			}
+			u := genUpload(r, o, b, name)
+			u.Proto, u.Body, u.Gzip, u.ContentEncoding, u.Conds = proto, pay, false, "", model.Conds{}
+			u.MD5 = common.Pick(r, []string{"", "right"})
+			if proto == "media" {
+				u.MD5, u.UserMeta, u.Extra = "", nil, nil
+			}
+			u.ChunkMax = common.Pick(r, []int{64 << 10, 256 << 10, 1 << 20, len(pay) + 1})
+			if cur := e.m.Get(b, name); cur != nil && string(cur.Content) == string(pay) {
+				e.stats["big_same_bytes_written_again_by_"+proto]++
+			}
+			return e.upload(u, r)
+		}
+	}
+	cp := func(from, to string) func(r *common.Rand) string {
+		return func(r *common.Rand) string {
+			src, dst := e.m.Get(b, from), e.m.Get(b, to)
+			if src != nil && dst != nil && string(src.Content) == string(dst.Content) && len(dst.Content) >= 1<<20 {
+				if from == to {
+					e.stats["big_same_bytes_copied_onto_itself"]++
+				} else {
+					e.stats["big_same_bytes_copied_from_twin"]++
+				}
+			}
+			return e.copyObj(b, from, b, to)
+		}
+	}
+	var twin string
+	for _, c := range o.Names {
+		if c != n && e.m.Get(b, c) == nil && (!o.FileRules || representable(c, append(e.liveIn(b), n))) && (!o.FileRules || representable(n, []string{c})) {
+			twin = c
+			break
+		}
+	}
+	var mids [][]func(r *common.Rand) string
+	mids = append(mids, []func(r *common.Rand) string{up(n, protos[2])})
+	mids = append(mids, []func(r *common.Rand) string{cp(n, n)})
+	if twin != "" {
+		mids = append(mids, []func(r *common.Rand) string{up(twin, common.Pick(r, protos)), cp(twin, n)})
+	}
+	mids = append(mids, []func(r *common.Rand) string{
+		func(r *common.Rand) string { return e.patch(b, n, genPatchFields(r), model.Conds{}) },
+		up(n, common.Pick(r, protos))})
+	common.Shuffle(r, mids)
+	e.queue = append(e.queue, up(n, protos[1]))
+	for _, m := range mids[:r.Range(2, len(mids))] {
+		e.queue = append(e.queue, m...)
+	}
+	for _, name := range []string{n, twin} {
+		name := name
+		if name == "" {
+			continue
+		}
+		e.queue = append(e.queue, func(r *common.Rand) string {
+			if e.m.Get(b, name) == nil {
+				e.mustSame, e.readOnly = true, true
+				return ""
+			}
+			return e.del(b, name, model.Conds{})
+		})
+	}
+	return up(n, protos[0])(r)
 }
